@@ -2,7 +2,7 @@
    still has exactly the statement written here. *)
 From Coq Require Import ZArith QArith String List Bool.
 Import ListNotations.
-From NV Require Import Crash.Outcome Crash.NumOps Crash.Index Crash.Lexer Crash.LexerProofs Crash.Span Crash.NameReg Crash.Defects Crash.MergeDispatch Crash.Ledger Gen.PanicSites Props.C10.
+From NV Require Import Crash.Outcome Crash.NumOps Crash.Index Crash.Lexer Crash.LexerProofs Crash.Span Crash.NameReg Crash.Defects Crash.MergeDispatch Crash.TomlFloats Crash.Ledger Gen.PanicSites Props.C10.
 
 Check (C10_no_panic_div : forall n1 n2, no_panic (op_div n1 n2)).
 Check (C10_no_panic_mod : forall n1 n2, no_panic (op_mod n1 n2)).
@@ -72,5 +72,9 @@ Check (C10_lone_cr_refuted : exists s l site, string_token s = SLit l /\ literal
 Check (C10_no_panic_literal_fixed : forall l, no_panic (literal_handler_fixed l)).
 Check (C10_no_panic_merge_select : forall has1 has2 p1 p2, no_panic (select_value has1 has2 p1 p2)).
 Check (C10_prio_eq_is_cmp_eq : forall a b, prio_eq a b = true <-> prio_cmp a b = Eq).
+Check (C10_no_panic_toml_import : forall doc, no_panic (from_doc doc)).
+Check (C10_toml_check_protects_conversion : forall i, check_floats i = true -> convert_item i = Val tt).
+Check (C10_toml_check_needs_inline_arm : exists v site,
+  check_value_no_inline v = true /\ convert_value v = Panic site).
 Check (C10_sites_all_covered : forall key line, In (key, line) sites -> exists c, In (key, c) ledger).
 Check (C10_ledger_no_stale : forall key c, In (key, c) ledger -> exists line, In (key, line) sites).
